@@ -25,8 +25,14 @@ func main() {
 		fmt.Fprintln(os.Stderr, "usage: vcheck run <id> <tier> | worker ... | replay <file> | list")
 		os.Exit(2)
 	}
+	// the tree the binary works in (known findings, work/, replays/, evidence/):
+	// run.sh always starts it from the root of its own tree
 	if r := os.Getenv("VERIF_ROOT"); r != "" {
 		harness.Root = r
+	} else if wd, err := os.Getwd(); err == nil {
+		if _, err := os.Stat(wd + "/known_findings.txt"); err == nil {
+			harness.Root = wd
+		}
 	}
 	switch os.Args[1] {
 	case "list":
